@@ -5,7 +5,11 @@ import contracts.msgpack_lemmas  # noqa
 INFO = {
     'not_decided': ['float payloads are moved, not interpreted (bit pattern identity)',
                     'the Python 2 half of the module (_pack2, _unpackb2, _pack_oldspec_raw) is dead on this interpreter',
-                    'compatibility mode (module global compatibility == True) is outside the contracts'],
+                    'compatibility mode (module global compatibility == True) is outside the contracts',
+                    'maps whose keys Python cannot hold side by side or cannot hash (1 and 1.0 and True; an ext, a map or a list of maps as key): '
+                    'the decoder refuses them by design (DuplicateKeyException / UnhashableKeyException; the contract of _unpack_map says exactly '
+                    'when) - whether that counts against "accepts every spec-valid encoding" is not decided; duplicate list keys are accepted '
+                    '(last wins); bytes after the first object are ignored by loads'],
     'stated_lemmas': [],
     'trusted': ['CPython int is mathematical; isinstance/None/bool dispatch executed by CPython itself'],
 }
